@@ -1,9 +1,8 @@
-/* C18 - spawn.c getcmd()/docmd()/err(): the spawners' command channel, every command
- * stream of NB bytes (concrete length, symbolic bytes, symbolic split into two reads).
+/* C18 - spawn.c getcmd()/docmd()/err(): the spawners' command channel.
  *
  * Encoded from /repo: spawn.c (getcmd, docmd, err, okwrite; main is cut off), stralloc
- * units, byte_rchr.c.  spawn() (program specific, qmail-lspawn.c / qmail-rspawn.c) and
- * report() are outside: spawn() is an observing stub.
+ * units, byte_rchr.c, open_read.c.  spawn() (program specific, qmail-lspawn.c /
+ * qmail-rspawn.c) and report() are outside: spawn() is an observing stub.
  *
  * Reference (qmail-lspawn(8)/qmail-rspawn(8), INTERNALS.md, the property text): a command
  * is  <delnum byte> <messid> NUL <sender> NUL <recip> NUL.  Every complete command is
@@ -12,6 +11,16 @@
  * its name consists of digits and '/' and starts with a digit; a delivery is started only
  * if the file is regular and owned by the queue user; delivery numbers outside the
  * spawner's table or already in use are refused.
+ *
+ * Three obligations (one inlined copy of docmd per byte of every read made the combined
+ * query 12 GB):
+ *   MODE 0  getcmd(): framing.  docmd() cut to an observer.  For every NB-byte stream split
+ *           arbitrarily over two reads: docmd is called once per complete command, in
+ *           order, with exactly that command's delivery number, message id, sender and
+ *           recipient; an incomplete command has no effect.
+ *   MODE 2  docmd(): one command with symbolic fields (message id ML bytes, recipient RL
+ *           bytes): exactly one answer; open/fstat/spawn conditions as above.
+ *   MODE 1  err(): the report format.
  */
 #include "verif.h"
 #include <errno.h>
@@ -19,15 +28,25 @@
 #include <sys/stat.h>
 #include <fcntl.h>
 #include <unistd.h>
+#ifndef MODE
+#define MODE 0
+#endif
 #include "gen_spawn.c"
 
 #ifndef NB
 #define NB 8
 #endif
+#ifndef ML
+#define ML 3
+#endif
+#ifndef RL
+#define RL 3
+#endif
 #define UIDQ 777
 
 unsigned char cmd[NB];
-unsigned int split;              /* first read returns cmd[0..split), second the rest */
+unsigned int split;              /* MODE 0: first read returns cmd[0..split), second the rest */
+unsigned char mid[ML + 1], rcp[RL + 1], in_delnum;   /* MODE 2 */
 unsigned int in_mode, in_uid;    /* what fstat reports */
 unsigned char in_used;           /* is the addressed slot already in use? */
 int in_open_fail, in_fstat_fail, in_pipe_fail, in_spawn_fail;
@@ -37,61 +56,88 @@ void sym_inputs(void)
 #ifdef REPLAY
 #include "replay_inputs.inc"
 #else
-  SYM_ARR(cmd); SYM(split); SYM(in_mode); SYM(in_uid); SYM(in_used);
+  SYM_ARR(cmd); SYM(split); SYM_ARR(mid); SYM_ARR(rcp); SYM(in_delnum); SYM(in_mode); SYM(in_uid); SYM(in_used);
   SYM(in_open_fail); SYM(in_fstat_fail); SYM(in_pipe_fail); SYM(in_spawn_fail);
 #endif
 }
 
-/* conf-spawn (auto_spawn) is a configuration value; the harness uses a table of 4 slots so
- * that d[delnum] with a symbolic delnum stays small (a 130-element struct array at a
- * symbolic index ran out of memory).  The allocation is exactly what main() makes:
- * auto_spawn + 10 elements, so cbmc's bounds check guards the real index arithmetic. */
+/* conf-spawn (auto_spawn) is a configuration value; the harness uses a table of 4 slots
+ * (+10, exactly what main() allocates), so cbmc's bounds check guards the index arithmetic */
 int auto_spawn = 4;
 #define NSLOT (4 + 10)
 static struct delivery slots[NSLOT];
-static unsigned int rpos, nread;
-static unsigned int n_open, n_spawn, n_reports, n_cmds_done;
+static unsigned int rpos, nread, n_open, n_spawn, n_reports, n_docmd;
 static int open_fds, rep_delnum = -1;
-static unsigned int rep_len; static int in_report;
-static char opened_path[NB + 2];
-static int spawn_delnum_ok;
+static char rep_letter;
 
-/* ---- reference: the k-th complete command inside cmd[] */
-static int ref_cmd(unsigned int k, unsigned int *delnum, unsigned int *mid0, unsigned int *midlen, unsigned int *rc0, unsigned int *rclen)
+int coe(int fd) { return 0; }
+int ideal_getc(substdio *s) { CHECK(0, "no substdio input"); return -1; }
+
+#if MODE == 1
+/* ------------------------------------------------------------------ err() */
+static unsigned char outb[8]; static unsigned int outn, flushed_at;
+int ideal_putc(substdio *s, unsigned char c) { CHECK(s == &ssout, "reports are written to descriptor 1"); if (outn < 8) outb[outn] = c; ++outn; return 0; }
+int ideal_flush(substdio *s) { flushed_at = outn; return 0; }
+int spawn(int a, int b, char *s, char *r, int at) { return -1; }
+void vmain(void)
+{
+  sym_inputs();
+  substdio_fdbuf(&ssout, okwrite, 1, outbuf, sizeof outbuf);
+  delnum = cmd[0];
+  err("Zab");
+  CHECK(outn == 5 && outb[0] == cmd[0] && outb[1] == 'Z' && outb[2] == 'a' && outb[3] == 'b' && outb[4] == 0,
+        "C18: a report is <delivery number byte> <text> NUL");
+  CHECK(flushed_at == 5, "the report is flushed at once");
+  WITNESS("report_written");
+}
+
+#elif MODE == 0
+/* ------------------------------------------------------------------ getcmd(): framing */
+int ideal_putc(substdio *s, unsigned char c) { CHECK(0, "framing writes nothing itself"); return -1; }
+int ideal_flush(substdio *s) { return 0; }
+int spawn(int a, int b, char *s, char *r, int at) { return -1; }
+
+/* reference: the k-th complete command inside cmd[]: start and length of its three fields */
+static int ref_cmd(unsigned int k, unsigned int *dn, unsigned int st[3], unsigned int ln[3])
 {
   unsigned int p = 0, c, f;
   for (c = 0; c < NB; ++c) {
-    unsigned int start[3], len[3];
     if (p >= NB) return 0;
-    *delnum = cmd[p++];
+    *dn = cmd[p++];
     for (f = 0; f < 3; ++f) {
-      start[f] = p;
+      st[f] = p;
       while (p < NB && cmd[p]) ++p;
-      if (p >= NB) return 0;           /* incomplete */
-      len[f] = p - start[f];
+      if (p >= NB) return 0;
+      ln[f] = p - st[f];
       ++p;
     }
-    if (c == k) { *mid0 = start[0]; *midlen = len[0]; *rc0 = start[2]; *rclen = len[2]; return 1; }
+    if (c == k) return 1;
   }
   return 0;
 }
 
-static int ref_messid_ok(unsigned int m0, unsigned int mlen)
+static int field_is(stralloc *sa, unsigned int st, unsigned int ln)
 {
   unsigned int i;
-  if (mlen == 0 || mlen > 100) return 0;
-  for (i = 0; i < NB; ++i) {
-    unsigned char ch;
-    if (i >= mlen) break;
-    ch = cmd[m0 + i];
-    if (ch >= '0' && ch <= '9') continue;
-    if (ch == '/' && i > 0) continue;
-    return 0;
-  }
+  if (sa->len != ln + 1) return 0;
+  for (i = 0; i < NB; ++i) { if (i > ln) break; if ((unsigned char) sa->s[i] != (i < ln ? cmd[st + i] : 0)) return 0; }
   return 1;
 }
 
-/* ---- environment */
+void docmd(void)
+{
+  unsigned int dn, st[3], ln[3];
+  int have = ref_cmd(n_docmd, &dn, st, ln);
+  CHECK(have, "C18: a command is executed only when it is complete");
+  if (have) {
+    CHECK((unsigned int) delnum == dn, "C18: the command keeps its delivery number");
+    CHECK(field_is(&messid, st[0], ln[0]) && field_is(&sender, st[1], ln[1]) && field_is(&recip, st[2], ln[2]),
+          "C18: message id, sender and recipient are exactly the command's three NUL-terminated fields");
+    CHECK(!flagabort, "no allocation failure inside the bound");
+  }
+  ++n_docmd;
+}
+
 ssize_t vf_read(int fd, void *buf, size_t n)
 {
   unsigned int k, end, i;
@@ -105,24 +151,64 @@ ssize_t vf_read(int fd, void *buf, size_t n)
   rpos = end;
   return (ssize_t) k;
 }
+int vf_open(const char *p, int f, ...) { CHECK(0, "framing opens nothing"); return -1; }
+int vf_fstat(int fd, struct stat *st) { return -1; }
+int vf_pipe(int pi[2]) { return -1; }
+int vf_close(int fd) { return 0; }
+
+void vmain(void)
+{
+  unsigned int dn, st[3], ln[3], total = 0, k;
+  sym_inputs();
+  ASSUME(split <= NB);
+  stralloc_copys(&messid, ""); stralloc_copys(&sender, ""); stralloc_copys(&recip, "");
+  getcmd();                       /* first read: cmd[0..split) */
+  getcmd();                       /* second read: the rest */
+  getcmd();                       /* end of input */
+  CHECK(flagreading == 0, "end of input is noticed");
+  for (k = 0; k < NB / 4 + 1; ++k) if (ref_cmd(k, &dn, st, ln)) total = k + 1;
+  CHECK(n_docmd == total, "C18: every complete command is executed exactly once; an incomplete one has no effect");
+  if (total == 0) WITNESS("incomplete_command_waits");
+  if (total == 1) WITNESS("one_command");
+  if (total == 2) WITNESS("two_commands");
+}
+
+#else
+/* ------------------------------------------------------------------ docmd(): one command */
+void err(char *s)
+{
+  ++n_reports; rep_delnum = delnum; rep_letter = s[0];
+  CHECK(s[0] == 'Z' || s[0] == 'D', "a refusal is a temporary (Z) or permanent (D) report");
+}
+int ideal_putc(substdio *s, unsigned char c) { CHECK(0, "command handling writes reports only through err()"); return -1; }
+int ideal_flush(substdio *s) { return 0; }
+ssize_t vf_read(int fd, void *b, size_t n) { return 0; }
+
+static int ref_messid_ok(void)
+{
+  unsigned int i;
+  if (ML == 0 || ML > 100) return 0;
+  for (i = 0; i < ML; ++i) {
+    unsigned char ch = mid[i];
+    if (ch >= '0' && ch <= '9') continue;
+    if (ch == '/' && i > 0) continue;
+    return 0;
+  }
+  return 1;
+}
 
 int vf_open(const char *path, int flags, ...)
 {
-  unsigned int i, dn, m0, ml, r0, rl;
+  unsigned int i;
   ++n_open;
   CHECK((flags & O_ACCMODE) == O_RDONLY, "message files are opened read-only");
-  CHECK(ref_cmd(0, &dn, &m0, &ml, &r0, &rl), "open only while serving a complete command");
-  CHECK(path[0] >= '0' && path[0] <= '9', "C18: the message file name starts with a digit");
-  for (i = 0; i < NB + 1; ++i) {
-    if (!path[i]) break;
-    CHECK((path[i] >= '0' && path[i] <= '9') || path[i] == '/', "C18: the message file name consists of digits and '/' only");
-    if (i < NB + 1) opened_path[i] = path[i];
-  }
+  CHECK(path == messid.s, "the file opened is the command's message id");
+  CHECK(ref_messid_ok(), "C18: only numerically named message files (digits and '/', starting with a digit) are opened");
+  for (i = 0; i < ML + 1; ++i) { if (!path[i]) break; CHECK((path[i] >= '0' && path[i] <= '9') || (path[i] == '/' && i > 0), "C18: the name handed to open() consists of digits and '/' only"); }
   if (in_open_fail) { errno = ENOENT; return -1; }
   ++open_fds;
   return 8;
 }
-
 int vf_fstat(int fd, struct stat *st)
 {
   CHECK(fd == 8, "fstat on the message file");
@@ -130,74 +216,57 @@ int vf_fstat(int fd, struct stat *st)
   st->st_mode = in_mode; st->st_uid = in_uid;
   return 0;
 }
-
 int vf_pipe(int pi[2]) { if (in_pipe_fail) { errno = EMFILE; return -1; } pi[0] = 9; pi[1] = 10; open_fds += 2; return 0; }
 int vf_close(int fd) { CHECK(fd == 8 || fd == 9 || fd == 10, "closes its own descriptors"); --open_fds; return 0; }
-int coe(int fd) { return 0; }
 
 int spawn(int fdmess, int fdout, char *s, char *r, int at)
 {
-  unsigned int dn, m0, ml, r0, rl;
   ++n_spawn;
-  CHECK(ref_cmd(0, &dn, &m0, &ml, &r0, &rl), "a delivery starts only for a complete command");
   CHECK(fdmess == 8 && fdout == 10, "delivery gets the message file and the report pipe");
   CHECK((in_mode & S_IFMT) == S_IFREG && in_uid == UIDQ, "C18: a delivery starts only for a regular file owned by the queue user");
-  CHECK(ref_messid_ok(m0, ml), "C18: a delivery starts only for a numerically named message file");
-  CHECK(r[at] == '@', "recipient is split at its last @");
-  spawn_delnum_ok = ((unsigned int) delnum == dn && dn < (unsigned int) auto_spawn && !in_used);
-  CHECK(spawn_delnum_ok, "C18: a delivery occupies the slot named in the command, which is inside the table and free");
+  CHECK(ref_messid_ok(), "C18: a delivery starts only for a numerically named message file");
+  CHECK(r == recip.s && r[at] == '@', "recipient is split at its last @");
+  CHECK(in_delnum < (unsigned int) auto_spawn && !in_used, "C18: a delivery occupies the slot named in the command, which is inside the table and free");
   if (in_spawn_fail) return -1;
   return 4321;
 }
 
-/* reports go through ssout (ideal stream): <delnum byte> text NUL, flushed */
-int ideal_putc(substdio *s, unsigned char c)
-{
-  CHECK(s == &ssout, "reports are written to descriptor 1");
-  if (!in_report) { in_report = 1; rep_delnum = c; rep_len = 0; return 0; }
-  if (c == 0) { in_report = 0; ++n_reports; return 0; }
-  ++rep_len;
-  return 0;
-}
-int ideal_flush(substdio *s) { return 0; }
-int ideal_getc(substdio *s) { CHECK(0, "no substdio input"); return -1; }
-
 void vmain(void)
 {
-  unsigned int dn = 0, m0 = 0, ml = 0, r0 = 0, rl = 0;
+  unsigned int i;
   sym_inputs();
-  ASSUME(split <= NB);
   ASSUME(in_used <= 1);
-  ASSUME((in_open_fail | in_fstat_fail | in_pipe_fail | in_spawn_fail) <= 1 && in_open_fail >= 0 && in_fstat_fail >= 0 && in_pipe_fail >= 0 && in_spawn_fail >= 0);
+  ASSUME(in_open_fail >= 0 && in_open_fail <= 1 && in_fstat_fail >= 0 && in_fstat_fail <= 1 && in_pipe_fail >= 0 && in_pipe_fail <= 1 && in_spawn_fail >= 0 && in_spawn_fail <= 1);
   auto_uidq = UIDQ;
   d = slots;
-  substdio_fdbuf(&ssout, okwrite, 1, outbuf, sizeof outbuf);
   stralloc_copys(&messid, ""); stralloc_copys(&sender, ""); stralloc_copys(&recip, "");
-  /* the slot addressed by the first command may already be in use */
-  if (cmd[0] < NSLOT) slots[cmd[0]].used = in_used;
+  /* the three fields as getcmd() leaves them: NUL-terminated, no NUL inside (MODE 0) */
+  for (i = 0; i < ML; ++i) { char c = (char) mid[i]; ASSUME(mid[i] != 0); stralloc_append(&messid, &c); }
+  stralloc_append(&messid, "");
+  stralloc_copys(&sender, "s@h"); stralloc_append(&sender, "");
+  for (i = 0; i < RL; ++i) { char c = (char) rcp[i]; ASSUME(rcp[i] != 0); stralloc_append(&recip, &c); }
+  stralloc_append(&recip, "");
+  delnum = in_delnum;
+  if (in_delnum < NSLOT) slots[in_delnum].used = in_used;
 
-  /* bound of this harness: at most one complete command in the stream (plus an incomplete tail) */
-  ASSUME(!ref_cmd(1, &dn, &m0, &ml, &r0, &rl));
-  getcmd();                       /* first read: cmd[0..split) */
-  getcmd();                       /* second read: the rest */
-  getcmd();                       /* end of input */
-  CHECK(flagreading == 0, "end of input is noticed");
-  n_cmds_done = ref_cmd(0, &dn, &m0, &ml, &r0, &rl) ? 1 : 0;
-  CHECK(n_spawn + n_reports == n_cmds_done, "C18: every complete command gets exactly one answer (one report or one started delivery)");
-  CHECK(!in_report, "no report is left unterminated");
-  if (ref_cmd(0, &dn, &m0, &ml, &r0, &rl)) {
-    if (n_reports >= 1 && n_spawn == 0 && n_cmds_done == 1) {
-      CHECK(rep_delnum == (int) dn, "C18: the report carries the delivery number of its command");
-      CHECK(rep_len >= 2, "the report has a status letter and a text");
-      WITNESS("command_refused_with_report");
-    }
-    if (n_spawn == 1 && n_cmds_done == 1) {
-      if (!in_spawn_fail) { CHECK(slots[dn].used == 1 && slots[dn].pid == 4321, "the slot records the running delivery"); WITNESS("delivery_started"); }
-    }
-    if (!ref_messid_ok(m0, ml)) CHECK(n_open == 0, "C18: a message id that is not numeric is never opened");
+  docmd();
+
+  /* a delivery that could not be forked is answered by a report instead */
+  CHECK((n_spawn == 1 && !in_spawn_fail ? 1 : 0) + n_reports == 1 && n_spawn <= 1, "C18: a command gets exactly one answer: one report or one started delivery");
+  if (n_reports) {
+    CHECK(rep_delnum == (int) in_delnum, "C18: the report carries the delivery number of its command");
+    CHECK(open_fds == 0, "descriptors are not leaked on refusals");
+    if (in_delnum >= (unsigned int) auto_spawn) WITNESS("delnum_too_big_refused");
+    if (n_open == 0 && !ref_messid_ok()) WITNESS("bad_messid_refused");
+    if (n_open == 1) WITNESS("refused_after_open");
+    if (n_spawn == 1) WITNESS("fork_failed_reported");
   } else {
-    CHECK(n_spawn == 0 && n_reports == 0 && n_open == 0, "C18: an incomplete command has no effect");
-    WITNESS("incomplete_command_waits");
+    if (!in_spawn_fail) {
+      CHECK(in_delnum < NSLOT && slots[in_delnum].used == 1 && slots[in_delnum].pid == 4321, "the slot records the running delivery");
+      CHECK(open_fds == 2, "only the report pipe stays open");
+      WITNESS("delivery_started");
+    }
   }
-  CHECK(open_fds == ((n_spawn == 1 && !in_spawn_fail) ? 2 : 0), "descriptors are not leaked: only a running delivery keeps its report pipe");
+  if (!ref_messid_ok()) CHECK(n_open == 0, "C18: a message id that is not numeric is never opened");
 }
+#endif
